@@ -86,6 +86,10 @@ async fn run_case(
                 Case::Fts(world) => {
                     let mut found = vec![];
                     let r = world.op(&kind, &kv, &mut stats, &mut found).await;
+                    let again = world.retries.replace(0);
+                    if again > 0 {
+                        stats.add("search_retried_after_sql_error", again);
+                    }
                     for (sig, detail) in found {
                         stats.inc(&format!("oracle.{}", sig));
                         oracle_lines.push(format!("{} {} {}", case_index, sig, detail));
